@@ -89,6 +89,14 @@ _EXTRA2 = {
 }
 for _p, _t in _EXTRA2.items():
     CHECKS[_p] = dict(CHECKS[_p]); CHECKS[_p]['text'] = CHECKS[_p]['text'] + _t
+_EXTRA3 = {
+ 'C01': ' Plus the bankruptcy write-off kernel socialize_loss shared from C07.c (C01.g: the depositors\' claim falls by the socialised loss, never by less).',
+ 'C03': ' Plus close_balance: Ok => the debt and the deposit written off with the slot are each below 0.0001 native units (C03.g, native replay).',
+ 'C14': ' Plus the killed state is terminal on both configuration paths (C14.g, shared from C07.e / C13.e, native replay).',
+ 'C18': ' Plus the acceptance gate: BankConfig::validate consults the curve validator on every accepting path and every bank initialiser validates the bank it wrote (C18.w, shared from C13.a / C13.d).',
+}
+for _p, _t in _EXTRA3.items():
+    CHECKS[_p] = dict(CHECKS[_p]); CHECKS[_p]['text'] = CHECKS[_p]['text'] + _t
 # thorough tier only: a Kani/CBMC harness re-decides one obligation of these properties on the compiled code (second engine)
 for _p, _t in (('C08', ' Thorough tier adds C08.k: the signer-authorisation truth table decided by Kani/CBMC on the compiled code.'),
                ('C12', ' Thorough tier adds C12.k: the daily deleverage window decided by Kani/CBMC on the compiled code.'),
